@@ -495,7 +495,7 @@ func H_C20_Interleaved() {
 }
 
 // H_C18_StreamListLengths: stream listings with parties of different address lengths: a 32-byte
-// sender whose last 20 bytes equal a 20-byte account Q, and a 32-byte receiver whose first 20 bytes
+// sender whose last 21 bytes equal the length-prefixed 20-byte account Q, and a 32-byte receiver whose first 20 bytes
 // equal Q. Q took part in no stream: its listings are empty, and the real parties are reported
 // exactly.
 func H_C18_StreamListLengths() {
@@ -510,6 +510,7 @@ func H_C18_StreamListLengths() {
 		r32[20+i] = 0xB0 + byte(i)
 	}
 	copy(s32[12:], q)
+	s32[11] = 20 // ...and the byte before them is Q's length prefix: the sender ends in <len(Q)><Q>
 	copy(r32[:20], q)
 	sender, receiver := sdk.AccAddress(s32), sdk.AccAddress(r32)
 	st := streamtypes.Stream{Deposit: sdk.NewCoin("nund", rt.BigInt("deposit", 1, 128)), FlowRate: rt.I64("rate"), LastOutflowTime: now, DepositZeroTime: now, Cancellable: true}
